@@ -274,6 +274,138 @@ Proof.
     + intros k r Gk _. simpl. assumption.
 Qed.
 
+(* ================= UpdateNSTBalance (op NstBalance) ================= *)
+(* ---------- generic loop lemmas ---------- *)
+Lemma nst_records_P (P : st -> Prop) sk :
+  (forall s pend rk s2 p', 0 < pend -> P s -> nst_record_step s sk pend rk = Some (s2, p') -> P s2) ->
+  forall entries s pend s' p', 0 < pend -> P s -> nst_records entries s sk pend = Some (s', p') -> P s'.
+Proof.
+  intros Hs entries. induction entries as [|[k rk] rest IH]; intros s pend s' p' Hp Ps H; simpl in H.
+  - inversion H; subst. exact Ps.
+  - destruct (nst_record_step s sk pend rk) as [[s2 q]|] eqn:E; [|discriminate].
+    pose proof (Hs _ _ _ _ _ Hp Ps E) as P2.
+    destruct (0 <? q) eqn:Eq.
+    + apply Z.ltb_lt in Eq. eapply IH; eauto.
+    + inversion H; subst. exact P2.
+Qed.
+
+Lemma nst_shares_P (P : st -> Prop) staker asset prop :
+  (forall s k row s', P s -> nst_share_step s staker asset prop k row = Some s' -> P s') ->
+  forall rows s s', P s -> nst_shares rows s staker asset prop = Some s' -> P s'.
+Proof.
+  intros Hs rows. induction rows as [|[k row] rest IH]; intros s s' Ps H; simpl in H.
+  - inversion H; subst. exact Ps.
+  - destruct (nst_share_step s staker asset prop k row) as [s1|] eqn:E; [|discriminate].
+    eapply IH; [eapply Hs; eauto | exact H].
+Qed.
+
+(* the whole operation: P is preserved if it survives the first write (+ ghost event) and every iteration *)
+Lemma nst_balance_P (P : st -> Prop) s st a x s' :
+  P s ->
+  (forall s1, 0 < x -> upd_sa s (sa_key st a) x x 0 = Some s1 -> P (log_ev (GNstP a x) s1)) ->
+  (forall info f s1, x < 0 -> sget (sa s) (sa_key st a) = Some info -> (f = sa_wd info \/ 0 < f) ->
+       upd_sa s (sa_key st a) (- f) (- f) 0 = Some s1 -> P (log_ev (GNstM a f) s1)) ->
+  (forall s0 pend rk s2 p', 0 < pend -> P s0 -> nst_record_step s0 (sa_key st a) pend rk = Some (s2, p') -> P s2) ->
+  (forall prop s0 k row s2, P s0 -> nst_share_step s0 st a prop k row = Some s2 -> P s2) ->
+  nst_balance s st a x = Some s' -> P s'.
+Proof.
+  intros Ps Hpos Hneg Hrec Hsh H. unfold nst_balance in H.
+  destruct (0 <? x) eqn:Ex.
+  - apply Z.ltb_lt in Ex. destruct (upd_sa s (sa_key st a) x x 0) as [s1|] eqn:E; [|discriminate].
+    inversion H; subst. exact (Hpos s1 Ex eq_refl).
+  - destruct (x <? 0) eqn:Ex2; [|inversion H; subst; exact Ps]. apply Z.ltb_lt in Ex2.
+    destruct (sget (sa s) (sa_key st a)) as [info|] eqn:Gi; [|discriminate].
+    set (pend0 := - x - sa_wd info) in *.
+    set (sfw := if 0 <? pend0 then sa_wd info else - x) in *.
+    destruct (upd_sa s (sa_key st a) (- sfw) (- sfw) 0) as [s1|] eqn:E1; [|discriminate].
+    assert (P (log_ev (GNstM a sfw) s1)) as P1.
+    { refine (Hneg info sfw s1 Ex2 eq_refl _ E1). unfold sfw. destruct (0 <? pend0); [left; reflexivity | right; lia]. }
+    destruct (0 <? pend0) eqn:Ep; [|inversion H; subst; exact P1]. apply Z.ltb_lt in Ep.
+    match type of H with match ?e with _ => _ end = _ => destruct e as [[s2 pend1]|] eqn:E2; [|discriminate] end.
+    pose proof (nst_records_P P (sa_key st a) Hrec _ _ _ _ _ Ep P1 E2) as P2.
+    destruct (0 <? pend1); [|inversion H; subst; exact P2].
+    match type of H with match ?e with _ => _ end = _ => destruct e as [total|]; [|discriminate] end.
+    destruct (total =? 0); [inversion H; subst; exact P2|].
+    eapply (nst_shares_P P st a); [apply Hsh | exact P2 | exact H].
+Qed.
+
+(* ---------- shapes of one iteration ---------- *)
+Lemma record_step_shape s sk pend rk s2 p' : nst_record_step s sk pend rk = Some (s2, p') ->
+  exists r s1, sget (ur s) rk = Some r /\ p' = pend - ur_act r /\
+    let sl := if 0 <? pend - ur_act r then ur_act r else pend in
+    upd_sa s sk (- sl) 0 0 = Some s1 /\
+    s2 = log_ev (GNstM (ur_asset r) sl) (w_ur (sset (ur s1) rk (with_act r (ur_act r - sl))) s1).
+Proof.
+  unfold nst_record_step. destruct (sget (ur s) rk) as [r|] eqn:G; [|discriminate].
+  destruct (upd_sa s sk _ 0 0) as [s1|] eqn:E; [|discriminate]. intro H; inversion H; subst. eauto 10.
+Qed.
+
+Lemma share_step_shape s st a prop k row s' : nst_share_step s st a prop k row = Some s' ->
+  exists o sh tok s1 s2 z s3 s4, let op := key_operator k in
+    sget (oa s) (oa_key op a) = Some o /\ 0 < sh /\ sh <= oa_tsh o /\
+    (if oa_tsh o =? sh then Some (oa_amt o) else tokens_from_shares sh (oa_tsh o) (oa_amt o)) = Some tok /\
+    upd_oa s (oa_key op a) (- tok) 0 (- sh) 0 = Some s1 /\ upd_dg s1 (dg_key st a op) (- sh) 0 = Some (s2, z) /\
+    (if z then delete_staker s2 (oa_key op a) st else Some s2) = Some s3 /\
+    upd_sa s3 (sa_key st a) (- tok) 0 0 = Some s4 /\ s' = log_ev (GNstM (key_asset (oa_key op a)) tok) s4.
+Proof.
+  unfold nst_share_step. set (op := key_operator k). set (sh := dec_mul (dg_sh row) prop).
+  destruct (sh <=? 0) eqn:E0; [discriminate|]. apply Z.leb_gt in E0.
+  destruct (sget (oa s) (oa_key op a)) as [o|] eqn:Go; [|discriminate].
+  destruct (sh >? oa_tsh o) eqn:E1; [discriminate|]. rewrite Z.gtb_ltb in E1. apply Z.ltb_ge in E1.
+  match goal with |- match ?e with _ => _ end = _ -> _ => destruct e as [tok|] eqn:Et; [|discriminate] end.
+  destruct (upd_oa s (oa_key op a) (- tok) 0 (- sh) 0) as [s1|] eqn:U1; [|discriminate].
+  destruct (upd_dg s1 (dg_key st a op) (- sh) 0) as [[s2 z]|] eqn:U2; [|discriminate].
+  match goal with |- match ?e with _ => _ end = _ -> _ => destruct e as [s3|] eqn:U3; [|discriminate] end.
+  destruct (upd_sa s3 (sa_key st a) (- tok) 0 0) as [s4|] eqn:U4; [|discriminate].
+  intro H; inversion H; subst. exists o, sh, tok, s1, s2, z, s3, s4. simpl. auto 12.
+Qed.
+
+Lemma share_step_frame s st a prop k row s' : nst_share_step s st a prop k row = Some s' ->
+  ur s' = ur s /\ pidx s' = pidx s /\ sidx s' = sidx s /\ height s' = height s /\ hold s' = hold s /\ bank s' = bank s /\ tot s' = tot s.
+Proof.
+  intro H. apply share_step_shape in H. destruct H as (o & sh & tok & s1 & s2 & z & s3 & s4 & H). simpl in H.
+  destruct H as (_ & _ & _ & _ & U1 & U2 & U3 & U4 & ->).
+  apply upd_oa_spec in U1. destruct U1 as (r1 & -> & _). apply upd_dg_spec in U2. destruct U2 as (r2 & -> & _).
+  assert (ur s3 = ur s /\ pidx s3 = pidx s /\ sidx s3 = sidx s /\ height s3 = height s /\ hold s3 = hold s /\ bank s3 = bank s /\ tot s3 = tot s) as F3.
+  { destruct z; [|inversion U3; subst; simpl; auto 10]. unfold delete_staker in U3. simpl in U3.
+    destruct (sget (sl s) _); [|discriminate]. inversion U3; subst. simpl. auto 10. }
+  apply upd_sa_spec in U4. destruct U4 as (r4 & -> & _). simpl. exact F3.
+Qed.
+
+(* ---------- a record rewritten with a lower ActualCompletedAmount ---------- *)
+Lemma with_act_idx s rk r x : idx_inv s -> sget (ur s) rk = Some r -> idx_inv (w_ur (sset (ur s) rk (with_act r x)) s).
+Proof.
+  intros (Su & Sp & K & Ip & W & Hh) G. pose proof (K _ _ G) as Rk.
+  unfold idx_inv. simpl. repeat split; try assumption.
+  - apply sset_sorted; assumption.
+  - intros k r0 G0. destruct (string_dec rk k) as [<-|Ne].
+    + rewrite sget_sset_same in G0. inversion G0 as [E0]. rewrite Rk at 1. reflexivity.
+    + rewrite sget_sset_other in G0 by assumption. apply K; assumption.
+  - intros k rk2 G2. destruct (Ip _ _ G2) as (r2 & Gr & ->). destruct (string_dec rk rk2) as [<-|Ne].
+    + exists (with_act r x). rewrite sget_sset_same. rewrite G in Gr. inversion Gr; subst. auto.
+    + exists r2. rewrite sget_sset_other by assumption. auto.
+  - apply allv_sset; [assumption|]. pose proof (allv_sget _ _ _ _ W G) as Wr. exact Wr.
+Qed.
+
+Lemma record_step_idx s sk pend rk s2 p' : idx_inv s -> nst_record_step s sk pend rk = Some (s2, p') -> idx_inv s2.
+Proof.
+  intros I H. apply record_step_shape in H. destruct H as (r & s1 & G & _ & H). simpl in H. destruct H as (U & ->).
+  apply upd_sa_frame in U. destruct U as (u & p & h & _).
+  assert (idx_inv s1) as I1 by (eapply (idx_inv_ext s s1); eauto).
+  eapply (idx_inv_ext (w_ur (sset (ur s1) rk (with_act r _)) s1)); try reflexivity.
+  apply with_act_idx; [exact I1 | rewrite u; exact G].
+Qed.
+
+Lemma nst_balance_idx s st a x s' : idx_inv s -> nst_balance s st a x = Some s' -> idx_inv s'.
+Proof.
+  intros I H. apply (nst_balance_P idx_inv s st a x s' I); try exact H.
+  - intros s1 _ U. apply upd_sa_frame in U. destruct U as (u & p & h & _). eapply (idx_inv_ext s); eauto.
+  - intros info f s1 _ _ _ U. apply upd_sa_frame in U. destruct U as (u & p & h & _). eapply (idx_inv_ext s); eauto.
+  - intros s0 pend rk s2 p' _ I0 E. eapply record_step_idx; eauto.
+  - intros prop s0 k row s2 I0 E. apply share_step_frame in E. destruct E as (u & p & _ & h & _). eapply (idx_inv_ext s0); eauto.
+Qed.
+
+
 (* ---- well-formed and fresh operations ---- *)
 Definition wf_op (o : op) : bool :=
   match o with
@@ -281,7 +413,7 @@ Definition wf_op (o : op) : bool :=
   | Delegate st _ op _ => no_slash st && no_slash op
   | Undelegate st _ op _ n _ => no_slash st && no_slash op && (0 <=? n)
   | GenesisLoad r => rec_wf r && negb (is_native (ur_asset r))   (* genesis loading is driven for the staker-row assets only *)
-  | NstBalance _ _ _ => false   (* UpdateNSTBalance is modelled and correspondence-checked, but outside the theorems *)
+  | NstBalance st a _ => no_slash st && negb (is_native a)   (* the native token has no staker rows to adjust *)
   | _ => true
   end.
 
@@ -463,5 +595,5 @@ Proof.
   - pose proof (hold_inc_frame s rk) as (? & ? & ?). eapply (idx_inv_ext s); eauto.
   - pose proof (hold_dec_frame s rk) as (? & ? & ?). eapply (idx_inv_ext s); eauto.
   - destruct (end_block_idx (fun _ => True) (fun _ _ _ _ _ => Logic.I) (fun _ _ _ => Logic.I) s I Logic.I) as (A & _). exact A.
-  - discriminate.
+  - destruct (nst_balance s staker asset x) as [s'|] eqn:E; simpl; [|exact I]. eapply nst_balance_idx; eauto.
 Qed.
